@@ -119,23 +119,32 @@ theorem C20_cancel_resend (s : Sess) (m : InMsg) (stash : List (Int × InMsg)) (
     simp [fixMsgInCore, Sess.setSt]
   rw [e1, e2, c_resendFixMsgIn _ s stash cur fin m hs]; rfl
 
-/-- consequently the whole event `Incoming(m)` is the same in a pending state and in the state it wraps, whenever the
-    handler leaves the session connected (observations, final record and status are equal) -/
+/-- consequently the whole event `Incoming(m)` is the same in a pending state and in the state it wraps — observations,
+    final record and status are equal — whenever the handler leaves the session connected, and also when it ends the
+    session (logout notification, reset, close) provided nothing is buffered in the inbound channel -/
 theorem C20_cancel_step (s : Sess) (m : InMsg) (b : SState)
     (h : (s.st = .pendingIn ∧ b = .inSession) ∨
          (∃ stash cur fin, s.st = .pendingResend stash cur fin ∧ b = .resend stash cur fin ∧ s.cfg.lookThroughPending = true))
-    (hnx : (fixMsgInCore s.clearLog m).2.connected = true) :
+    (hnx : (fixMsgInCore s.clearLog m).2.connected = true ∨ s.inbox = []) :
     step (s.setSt b) (.incomingMsg (some m)) = step s (.incomingMsg (some m)) := by
-  have hc : s.st.connected = true := by
+  have hl : s.st.loggedOn = true := by
     rcases h with ⟨h, _⟩ | ⟨_, _, _, h, _, _⟩ <;> rw [h] <;> rfl
-  have hcb : (s.setSt b).st.connected = true := by
+  have hb : b.loggedOn = true := by
     rcases h with ⟨_, h⟩ | ⟨_, _, _, _, h, _⟩ <;> rw [h] <;> rfl
   have key : fixMsgInCore (s.clearLog.setSt b) m = ((fixMsgInCore s.clearLog m).1.setSt b, (fixMsgInCore s.clearLog m).2) := by
     rcases h with ⟨h, rfl⟩ | ⟨st, c, f, h, rfl, hf⟩
     · exact C20_cancel_inSession s.clearLog m h
     · exact C20_cancel_resend s.clearLog m st c f h hf
-  rw [step_incoming_eq s m hc _ rfl hnx, step_incoming_eq (s.setSt b) m hcb _ key hnx]
-  rfl
+  have hfr : (fixMsgInCore s.clearLog m).1.st = s.st ∧ (fixMsgInCore s.clearLog m).1.inbox = s.inbox := by
+    rcases h with ⟨h, _⟩ | ⟨st, c, f, h, _, hf⟩
+    · have e : fixMsgInCore s.clearLog m = inSessionFixMsgIn s.clearLog m := by simp [fixMsgInCore, Sess.clearLog, h]
+      rw [e]
+      exact ⟨(q_inSessionFixMsgIn s.clearLog m).st, (q_inSessionFixMsgIn s.clearLog m).inbox⟩
+    · have hc : curResend s.clearLog = some (st, c, f) := by simp [curResend, Sess.clearLog, h, hf]
+      rw [fixMsgInCore_rec s.clearLog m st c f hc]
+      have hq := q_resendFixMsgIn s.clearLog st c f m (by rw [hc]; rfl)
+      exact ⟨hq.st, hq.inbox⟩
+  exact step_incoming_retag s m b hl hb key hfr hnx
 
 /-! ### a TestRequest received in sequence (`C20_testrequest_echo`) -/
 
